@@ -262,6 +262,8 @@ func runJob(j job) string {
 		return boxBoth(j.data)
 	case "X":
 		return boxPipeline(j.data)
+	case "C":
+		return countJob(j.data, j.cfg == "S")
 	}
 	return "badjob"
 }
@@ -421,6 +423,9 @@ func runChunk(jobs []job, res []string, lo, hi int) {
 			res[k] = "dec=" + c
 			if jobs[k].kind == "B" || jobs[k].kind == "X" {
 				res[k] = c + "\t" + c
+			}
+			if jobs[k].kind == "C" {
+				res[k] = c + "\t-1\t0"
 			}
 			rstats.Lock()
 			rstats.restarts++
